@@ -144,6 +144,7 @@ def cases(tier, seed):
             yield ("by-parameter-after-by-model", name, None)
         yield ("pairs-and-frame", name, None)
         yield ("compiled-next-to-direct", name, None)
+        yield ("export-compile-export", name, None)
         yield ("default-after-late-registration", name, None)
 
 
@@ -581,6 +582,35 @@ def _check_case_rest(case, kind, pname, arg, P, w):
                     done += 1
         if not done:
             return (f"{pname}.next-to-direct.harness", "no device pair could be built", w)
+        return None
+    if kind == "export-compile-export":
+        # a design exported / netlisted / elaborated BEFORE it is compiled: afterwards it exports with the PDK's devices,
+        # exactly as a twin that was compiled straight away
+        import io as _io
+        sat = [r for r in mos_requests("quick") if len(P["mos"](h.Mos(**r).params)) == 1][:3]
+        for r in sat:
+            for first in ("to_proto", "elaborate", "netlist-attempt"):
+                twin = design(h.Mos(**r), depth=2)
+                P["compile"](twin)
+                want = h.to_proto(twin).SerializeToString(deterministic=True)
+                top = design(h.Mos(**r), depth=2)
+                try:
+                    if first == "to_proto":
+                        h.to_proto(top)
+                    elif first == "elaborate":
+                        h.elaborate(top)
+                    else:
+                        try:
+                            h.netlist(top, _io.StringIO(), fmt="spice")
+                        except Exception:
+                            pass          # (generic primitives do not netlist before they are compiled)
+                    P["compile"](top)
+                    got = h.to_proto(top).SerializeToString(deterministic=True)
+                except Exception as e:
+                    return (f"{pname}.export-compile-export.raises", f"{r}, {first} first: {type(e).__name__}: {str(e)[:120]}", w)
+                if got != want:
+                    return (f"{pname}.export-compile-export.differs", f"{r}: a design that went through {first} before it was compiled "
+                                                                       f"exports differently from one compiled straight away", w)
         return None
     if kind == "default-after-late-registration":
         # the default PDK is a function of what is registered and what was set NOW - not of which lookups happened while
